@@ -319,6 +319,37 @@ IDENT_POSITIONS = {
 }
 
 
+def r17_use_tag_verbatim(c, facts, rule='C05.R17'):
+    """a use of a name has the type of its definition - the same tag, variables included, whether the definition stands
+    in this module or in an imported one. tag() hands the variable get_tag(definition) as it is: a copy with renamed
+    variables gives an imported `let id x = x` the type b -> c, and a program that is accepted with the declaration in
+    place is judged differently once the declaration has moved into a module."""
+    R = c.rule(rule, 'USE-TAG-VERBATIM: inference::tag gives a variable the tag of its definition unchanged (get_tag of the external definition, Internal::tag of a built-in), for local and imported definitions alike')
+    fn = facts.normalised(c.anchor(R, 'oal_compiler::inference::tag'))
+    idx = MF.defs_index(fn)
+    n = 0
+    ALLOW = ('get_tag', 'Internal::tag', 'Clone::clone', 'Into::into', 'From::from', 'Deref::deref', 'Option::expect', 'Option::unwrap')
+    for b, t in P.call_blocks(fn, 'tree::set_tag'):
+        if len(t['args']) < 2 or 'l' not in t['args'][1]:
+            continue
+        sl = MF.slice_back(fn, t['args'][1]['l'], idx)
+        names = [P.strip(x) for x, _, _ in sl['calls']]
+        if not any(x.endswith('External::node') for x in names):
+            continue
+        n += 1
+        odd = []
+        for x, ct, _ in sl['calls']:
+            dty = fn.mir['locals'][ct['dest']['l']]['ty'] if isinstance(ct.get('dest'), dict) and 'l' in ct['dest'] else ''
+            if re.search(r'\btag::Tag\b', dty) and not any(P.strip(x).endswith(a) for a in ALLOW):
+                odd.append(P.strip(x).split('::', 1)[-1])
+        inst = {'fn': 'inference::tag', 'tag_producers': sorted({P.strip(x).split('::')[-1] for x, ct, _ in sl['calls'] if isinstance(ct.get('dest'), dict) and 'l' in ct['dest'] and re.search(r'\btag::Tag\b', fn.mir['locals'][ct['dest']['l']]['ty'])})}
+        if odd:
+            c.bad(R, 'use-tag-transformed:%s' % ','.join(sorted(set(odd))), 'inference::tag passes the tag of a definition through %s before giving it to a use: the use is typed differently from its definition (for some definitions only), so moving a declaration changes the verdict' % sorted(set(odd)), **inst)
+        else:
+            c.ok(R, inst)
+    c.floor(R, 'sites where a variable receives the tag of its definition', n, 1)
+
+
 def r14_ident_positions(c, facts, rule='C05.R14'):
     R = c.rule(rule, 'IDENT-POSITIONS: every position of the grammar that took either kind of identifier still does (parse_identifier)')
     for q, (want, what) in sorted(IDENT_POSITIONS.items()):
@@ -353,12 +384,14 @@ def run(c, facts):
     import c02 as _c02
     c.run(lambda c: _c02.r15c_rec_use_site(c, facts, rule='C05.R13'))
     c.run(lambda c: _c02.r23_inner_wins(c, facts, rule='C05.R15'))      # a single-use function keeps the precedence of the annotations
+    c.run(r17_use_tag_verbatim, facts)
     c.run(r9_late_annotations, facts)
     R6 = c.rule('C05.R6', 'JOIN-AGREE: a declaration moved into a module is found again: an import binds to the module that was loaded for it (shared with C10.R5)')
     c.shared(R6, c10.r5_join_agree, 'C10.R5', facts)
     R16 = c.rule('C05.R16', 'MODULE-MOVE: a group of declarations moved into a module is loaded from the file the `use` names, whatever its name (Url::join / Url::to_file_path, shared with C10.R7), and naming a sub-expression never makes a cycle: a cycle error comes from the topological sort of the modules alone (shared with C10.R6)')
     c.shared(R16, c10.r7_locators, 'C10.R7', facts)
     c.shared(R16, c10.r6_complete, 'C10.R6', facts)
+    c.shared(R16, c10.r3_sorted, 'C10.R3', facts)       # ... and is compiled after the modules it imports, however the `use` statements are ordered
     c.run(r1_transparent, facts)
     R2 = c.rule('C05.R2', 'ORDER-FREE: declarations are tagged and declared before any traversal')
     c.run(lambda c: I.pre_tag(c, facts, R2))
